@@ -304,19 +304,27 @@ def r_utils_argmax(m, rep, R):
             ivs = [d for d in (init.find('VarDecl') if init is not None else []) if env.init_of(d) is not None and term(env.init_of(d), env) == LIT(0)]
             if len(ivs) == 1 and cond_n is not None:
                 i_ = ivs[0].name
-                ct = canon(term(cond_n, env))
-                pos = ('bin', '+', V(pr[0]), V(i_))
+                def uncast(t_):
+                    # static_cast<int>(to - from) is to - from for the sizes of a row
+                    if isinstance(t_, tuple) and t_ and t_[0] in ('cast', 'scast') and isinstance(t_[-1], tuple):
+                        return uncast(t_[-1])
+                    return tuple(uncast(x_) if isinstance(x_, tuple) else x_ for x_ in t_) if isinstance(t_, tuple) else t_
+                # a const local that only names the length of the range
                 span = ('bin', '-', V(pr[1]), V(pr[0]))
+                sizes = [k_ for k_, v_ in decl.items() if v_ is not None and canon(uncast(v_)) == canon(span) and k_ not in env.mutated_names()] if hasattr(env, 'mutated_names') else \
+                    [k_ for k_, v_ in decl.items() if v_ is not None and canon(uncast(v_)) == canon(span)]
+                ct = canon(uncast(cxx.subst(term(cond_n, env), {V(k_): span for k_ in sizes})))
+                pos = ('bin', '+', V(pr[0]), V(i_))
                 okcond = ct in (canon(('bin', '!=', pos, V(pr[1]))), canon(('bin', '<', pos, V(pr[1]))),
                                 canon(('bin', '<', V(i_), span)), canon(('bin', '!=', V(i_), span)))
                 stepped = inc is not None and {strip(n.kids[0]).ref for n in inc.walk() if n.kind == 'UnaryOperator' and n.op == '++'} == {i_}
-                touched = [n for n in lbody.walk() if n.kids and strip(n.kids[0]).ref in (i_, pr[0], pr[1]) and (
+                touched = [n for n in lbody.walk() if n.kids and strip(n.kids[0]).ref in (i_, pr[0], pr[1]) + tuple(sizes) and (
                     (n.kind == 'UnaryOperator' and n.op in ('++', '--')) or (n.kind == 'BinaryOperator' and n.op == '=') or n.kind == 'CompoundAssignOperator')]
                 c = term(ifs[0].kids[0], env)
                 elem_terms = (IDX(V(pr[0]), V(i_)), ('deref', pos))
                 elems = [canon(e_) for e_ in elem_terms]
                 maxv = None
-                locs = {k_: v_ for k_, v_ in decl.items() if k_ != i_}
+                locs = {k_: v_ for k_, v_ in decl.items() if k_ != i_ and k_ not in sizes}
                 for cand in locs:
                     for op_ in ('<=', '<'):
                         if canon(c) in [canon(('bin', op_, V(cand), e_)) for e_ in elem_terms]:
